@@ -1,5 +1,5 @@
 # harness executables
-FX_OBJS := $(O)/h/fx_main.o $(O)/h/fx_codec.o $(O)/h/fx_meta.o $(O)/h/fx_misc.o $(O)/h/fx_store.o $(O)/h/fx_sess.o
+FX_OBJS := $(O)/h/fx_main.o $(O)/h/fx_codec.o $(O)/h/fx_meta.o $(O)/h/fx_misc.o $(O)/h/fx_store.o $(O)/h/fx_sess.o $(O)/h/fx_thr.o
 $(O)/fx: $(FX_OBJS) $(UT_OBJS) $(F44_OBJS) $(O)/librt.a
 	$(CXX) $(LDFLAGS) -rdynamic -o $@ $(FX_OBJS) $(UT_OBJS) $(F44_OBJS) $(O)/librt.a $(LDLIBS)
 fx: $(O)/fx
